@@ -58,6 +58,8 @@ func newEthChain(rng *rand.Rand, now uint64, root common.Hash, hint string) *eth
 		pick = 0
 	} else if hint == "high" {
 		pick = 2
+	} else if hint == "zero" {
+		heights[pick] = 0 // the first block of an EVM chain (revision 0): a legitimate anchor
 	}
 	c.head = ethtypes.Header{
 		ParentHash: rnd(rng, 32), UncleHash: gethtypes.EmptyUncleHash.Bytes(), Coinbase: rnd(rng, 20), Root: root[:],
